@@ -90,6 +90,10 @@ pub struct CliWorld {
   pub with_tests: bool,
   /// content of a `.ignore` file at the root, if any
   pub ignore_file: Option<String>,
+  /// `languageInjections` of sgconfig.yml: 0 none, 1 css inside styled.x`...` of js/ts files,
+  /// 2 also html inside html`...`
+  #[serde(default)]
+  pub injections: u8,
 }
 
 impl CliWorld {
@@ -136,6 +140,15 @@ impl CliWorld {
     }
     if self.with_tests {
       o.push_str("testConfigs:\n- testDir: rule-tests\n");
+    }
+    if self.injections > 0 {
+      o.push_str("languageInjections:\n");
+      for host in ["js", "ts"] {
+        o.push_str(&format!("- hostLanguage: {host}\n  rule:\n    pattern: styled.$TAG`$CONTENT`\n  injected: css\n"));
+        if self.injections > 1 {
+          o.push_str(&format!("- hostLanguage: {host}\n  rule:\n    pattern: html`$CONTENT`\n  injected: html\n"));
+        }
+      }
     }
     o
   }
@@ -252,6 +265,8 @@ pub struct GenOpts {
   pub order_sensitive_rules: bool,
   /// some files are hard links to other files of the tree
   pub hard_links: bool,
+  /// some projects declare `languageInjections` (css / html inside js and ts template strings)
+  pub injections: bool,
 }
 
 /// Languages used by CLI worlds (those that have rule templates).
@@ -325,6 +340,17 @@ pub fn gen_world(rng: &mut Rng, o: &GenOpts) -> CliWorld {
       if !langs.contains(&l) {
         langs.push(l);
       }
+    }
+  }
+  // template strings of js/ts files as embedded css / html documents
+  let mut injections = 0u8;
+  if o.injections && (langs.contains(&"TypeScript") || langs.contains(&"JavaScript")) && rng.chance(0.3) {
+    injections = if rng.chance(0.5) { 1 } else { 2 };
+    if !langs.contains(&"Css") {
+      langs.push("Css");
+    }
+    if injections == 2 && !langs.contains(&"Html") {
+      langs.push("Html");
     }
   }
   let mut specs: Vec<RuleSpec> = vec![];
@@ -431,6 +457,27 @@ pub fn gen_world(rng: &mut Rng, o: &GenOpts) -> CliWorld {
     };
     files.push(f);
   }
+  if injections > 0 {
+    for f in files.iter_mut() {
+      if f.kind != "normal" || !(f.path.ends_with(".ts") || f.path.ends_with(".js")) || !rng.chance(0.7) {
+        continue;
+      }
+      if !f.text.is_empty() && !f.text.ends_with('\n') {
+        continue; // keep the files without final newline as they are
+      }
+      let eol = if f.text.contains("\r\n") { "\r\n" } else { "\n" };
+      for _ in 0..rng.range(1, 3) {
+        let snip = *rng.pick(&[
+          "const Button = styled.button`\n  color: red;\n  margin: 0 !important;\n`;",
+          "const Box = styled.div`\n  a { color: red; }\n  .box { color: red; margin: 0; }\n`;",
+          "const tpl = html`<p>text</p><img src=\"a.png\">`;",
+          "const Title = styled.h1`color: red;`;",
+        ]);
+        f.text.push_str(&snip.replace('\n', eol));
+        f.text.push_str(eol);
+      }
+    }
+  }
   // suppression comments that name a rule get the id of a rule that exists in this project
   // (so that "used" and "unused" suppressions of specific rules both occur)
   for f in files.iter_mut() {
@@ -468,7 +515,7 @@ pub fn gen_world(rng: &mut Rng, o: &GenOpts) -> CliWorld {
   }
   let ignore_file = if rng.chance(0.15) { Some("vendor/\n".to_string()) } else { None };
   let _ = lang_of_ext;
-  CliWorld { files, rule_dirs, util_dirs, with_tests: o.with_tests, ignore_file }
+  CliWorld { files, rule_dirs, util_dirs, with_tests: o.with_tests, ignore_file, injections }
 }
 
 fn rng_free_keep(name: &str) -> bool {
